@@ -595,8 +595,9 @@ func (i *IniParser) parse(ini *ini) error {
 				if opt.value.Type().Kind() == reflect.Map {
 					parts := strings.SplitN(inival.Value, ":", 2)
 
-					// only handle unquoting
-					if len(parts) == 2 && len(parts[1]) > 0 && parts[1][0] == '"' {
+					// only handle unquoting (of a value that has not been
+					// unquoted as a whole already)
+					if !inival.Quoted && len(parts) == 2 && len(parts[1]) > 0 && parts[1][0] == '"' {
 						if v, err := strconv.Unquote(parts[1]); err == nil {
 							parts[1] = v
 
